@@ -244,6 +244,9 @@ func genSpec(t *rapid.T) string {
 	for i, n := 0, rapid.IntRange(0, 3).Draw(t, "undefined"); i < n; i++ {
 		uses = append(uses, fmt.Sprintf("UNDEF_%c", 'A'+i))
 	}
+	for i, n := 0, rapid.IntRange(0, 3).Draw(t, "undefinedNonTerminals"); i < n; i++ {
+		uses = append(uses, fmt.Sprintf("nowhere_%c", 'a'+i))
+	}
 	for i, n := 0, rapid.IntRange(0, 2).Draw(t, "dupValues"); i < n; i++ {
 		decls = append(decls, fmt.Sprintf("DVA%d = \"dup%d\"", i, i), fmt.Sprintf("DVB%d = \"dup%d\"", i, i))
 	}
@@ -318,6 +321,9 @@ func TestFixedSpecs(t *testing.T) {
 		"grammar g;\nNUM = /[0-9]+/\nINT = /[0-9][0-9]*/\nID = /[a-z]+/\nNAME = /[a-z][a-z]*/\nTYPE = /[A-Z][a-z]*/\nCONST = /[A-Z]+/\nstart = NUM | INT | ID | NAME | TYPE | CONST;\n",
 		"grammar g;\nstart = AA | BB | CC | DD;\nXA = \"v\"\nXB = \"v\"\nYA = \"w\"\nYB = \"w\"\nZA = \"u\"\nZB = \"u\"\n",
 		"grammar g;\nstart = start \"+\" start | start \"-\" start | start \"*\" start | start start | \"i\";\n",
+		"grammar g;\nstart = aa bb cc dd ee | \"x\";\n",
+		"grammar g;\nAB = /a{3,2}/\nCD = /[z-a]/\nEF = /(/\nGH = /b{2,1}/\nstart = AB CD EF GH;\n",
+		"grammar g;\nIF = \"if\"\nPLUS = \"+\"\nADD = \"+\"\nSUM = \"+\"\nstart = IF \"if\" PLUS ADD SUM;\n",
 	}
 	for _, s := range specs {
 		o, err := checkSpec(s, true)
